@@ -750,6 +750,8 @@ def apply(fb):
         before = counter[0]
         h["body"] = inline_hir(h["body"], {k: v for k, v in new_hir.items() if k != key}, counter)
         if counter[0] != before:
+            # a closure handed to the helper as an argument is now `let f = || ..; .. f() ..` inside the inlined block
+            h["body"] = inline_local_closures(h["body"], cnt)
             h["body"] = hoist_inlined(h["body"])
             fb.inlined.append({"into": h["path"], "level": "HIR", "count": counter[0] - before})
     # a private new helper whose calls were all inlined is no longer a unit of analysis
